@@ -11,7 +11,7 @@ from sa.pm import FuncInfo, call_name, norm, self_attr, walk_local_ordered
 from sa.report import Ob, rule
 
 from .c02 import depth_guard, region
-from .common import local_defs, attr_stores, ob, receiver_classes, structurally_non_none
+from .common import local_defs, attr_stores, ob, receiver_classes, structurally_non_none, traces
 
 LISTENER = 'zeroconf._listener.AsyncListener'
 PROTOCOL_METHODS = ('datagram_received', 'error_received', 'connection_made', 'connection_lost')
@@ -145,6 +145,25 @@ def sc_server_set(ctx: Any) -> Tuple[bool, str]:
             conds[t.attr] = norm(s.value.test)
     if len(set(conds.values())) > 1:
         problems.append(f'constructor sets server / server_key under different conditions {conds}')
+    # ... decided along the paths of the constructor too (a conditional store spelled as `if` / `else`): for a host that is
+    # given, empty or absent, the two fields are None together or set together
+    p_srv = next((p_ for p_ in init.params if p_ == 'server'), None)
+    if p_srv is not None:
+        ime = init.params[0]
+        for sv in ('Host.local.', '', None):
+            seen_n: Dict[str, Set[bool]] = {}
+
+            def eff_n(node: Any, evl: Any, seen_n: Dict[str, Set[bool]] = seen_n) -> List[Any]:
+                if node.kind == 'stmt':
+                    for t_, s_ in attr_stores(node.ast):
+                        if self_attr(t_, ime) in ('server', 'server_key') and isinstance(s_, ast.Assign):
+                            v_ = evl.ev(s_.value)
+                            seen_n.setdefault(t_.attr, set()).add(v_ is None)
+                return []
+
+            traces(ctx, init, {p_srv: sv}, eff_n, loop_bound=1)
+            if len(seen_n) == 2 and (len(seen_n['server']) != 1 or seen_n['server'] != seen_n['server_key']):
+                problems.append(f'constructor called with server={sv!r}: server is None on {sorted(seen_n["server"])}, server_key is None on {sorted(seen_n["server_key"])}')
     return (not problems, 'server and server_key are written together in every ServiceInfo method; _add rejects server_key None before inserting' if not problems else '; '.join(problems))
 
 
